@@ -868,6 +868,15 @@ func runC08(c *RunCtx) {
 	for v := 0; v < c.Q(96, 600); v++ {
 		c.Program(fmt.Sprintf("batch/%d", v), func(p *Prog) {
 			cfg := drawBatch(p.Rng, c.Thorough() && v%20 == 0)
+			if v%12 == 7 {
+				// every item of a large batch fails and nobody reads before Wait returned: the stream has to
+				// hold one outcome per item whatever the size
+				cfg.WK = Pick(p.Rng, WErr, WResult)
+				forceLate(&cfg, p.Rng)
+				for i := range cfg.Out[0] {
+					cfg.Out[0][i] = 1
+				}
+			}
 			p.Explore(func(pl Plan) *Result { return epBatch(c, cfg) },
 				ExploreOpts{Base: 4, Noise: c.Q(15, 80), K: c.Q(2, 4), Funcs: anchoredOr(c, batchFuncs), Pairs: c.Q(15, 100), MaxCases: c.Q(120, 2500)})
 		})
